@@ -25,6 +25,10 @@ func (s *Server) serveStream(ctx context.Context, r io.Reader, w io.Writer, req 
 		}
 		emptySchema := arrow.NewSchema(nil, nil)
 		s.logIPCWriteErr("error-response", req.Method, writeErrorResponse(w, emptySchema, handlerErr, s.serverID, req.RequestID, s.debugErrors))
+		// Drain the client's input stream, as on an init error: the client
+		// writes before reading, and leaving it on the wire would have it
+		// read as the next request.
+		drainInputStream(r)
 		return handlerErr, nil
 	}
 
